@@ -11,6 +11,7 @@ address but another role was ignored); `role_old_witness` keeps that visible. Af
 the `fix:` commit it is proved for every configuration and request.
 -/
 import RqModel.Lemmas.Membership
+import RqModel.Gen.ReadPath
 namespace C32
 open RqModel.Membership
 
@@ -343,10 +344,197 @@ theorem reap_touches_only_that_node (e : Env) (c : Config) (id : String) (dur rt
       exact removeGo_mem_of_ne id c s hs hne
   · exact hs
 
-/-- and without a positive decision the configuration is untouched -/
+/-- (unfolding lemma) without a positive decision the configuration is untouched -/
 theorem no_reap_without_decision (e : Env) (c : Config) (id : String) (dur rt rro : Int)
     (h : reapDecision c id dur rt rro = false) : (storeReap e c id dur rt rro).1 = c := by
   simp [storeReap, h]
+
+/-! ### frame and persistence of roles; Notify -/
+
+theorem addVoterGo_keeps (id addr : String) (c : Config) (t : Server) (ht : t ∈ c) (hne : t.id ≠ id) :
+    t ∈ (addVoterGo id addr c).getD (c ++ [⟨id, addr, .voter⟩]) := by
+  induction c with
+  | nil => simp at ht
+  | cons x rest ih =>
+    unfold addVoterGo
+    by_cases hx : x.id = id
+    · simp only [hx, if_true, Option.getD_some]
+      rcases List.mem_cons.1 ht with rfl | h
+      · exact absurd hx hne
+      · exact List.mem_cons_of_mem _ h
+    · simp only [hx, if_false]
+      cases hg : addVoterGo id addr rest with
+      | none =>
+        simp only [Option.map_none, Option.getD_none]
+        exact List.mem_append_left _ ht
+      | some r =>
+        simp only [Option.map_some, Option.getD_some]
+        rcases List.mem_cons.1 ht with rfl | h
+        · exact List.mem_cons_self ..
+        · have := ih h
+          rw [hg] at this
+          exact List.mem_cons_of_mem _ (by simpa using this)
+
+theorem addNonvoterGo_keeps (id addr : String) (c : Config) (t : Server) (ht : t ∈ c) (hne : t.id ≠ id) :
+    t ∈ (addNonvoterGo id addr c).getD (c ++ [⟨id, addr, .nonvoter⟩]) := by
+  induction c with
+  | nil => simp at ht
+  | cons x rest ih =>
+    unfold addNonvoterGo
+    by_cases hx : x.id = id
+    · simp only [hx, if_true, Option.getD_some]
+      rcases List.mem_cons.1 ht with rfl | h
+      · exact absurd hx hne
+      · exact List.mem_cons_of_mem _ h
+    · simp only [hx, if_false]
+      cases hg : addNonvoterGo id addr rest with
+      | none =>
+        simp only [Option.map_none, Option.getD_none]
+        exact List.mem_append_left _ ht
+      | some r =>
+        simp only [Option.map_some, Option.getD_some]
+        rcases List.mem_cons.1 ht with rfl | h
+        · exact List.mem_cons_self ..
+        · have := ih h
+          rw [hg] at this
+          exact List.mem_cons_of_mem _ (by simpa using this)
+
+theorem applyChange_keeps (c : Config) (ch : Change) (t : Server) (ht : t ∈ c)
+    (hne : ∀ id, (ch = .removeServer id ∨ (∃ a, ch = .addVoter id a) ∨ ∃ a, ch = .addNonvoter id a) → t.id ≠ id) :
+    t ∈ applyChange c ch := by
+  cases ch with
+  | addVoter id a => exact addVoterGo_keeps id a c t ht (hne id (Or.inr (Or.inl ⟨a, rfl⟩)))
+  | addNonvoter id a => exact addNonvoterGo_keeps id a c t ht (hne id (Or.inr (Or.inr ⟨a, rfl⟩)))
+  | removeServer id => exact removeGo_mem_of_ne id c t ht (hne id (Or.inl rfl))
+
+theorem joinLoop_keeps (id addr : String) (v : Bool) (snap cur : Config) (t : Server) (ht : t ∈ cur) (hne : t.id ≠ id) :
+    (∀ r o, joinLoop id addr v snap cur = .inl (r, o) → t ∈ r) ∧
+    (∀ r, joinLoop id addr v snap cur = .inr r → t ∈ r) := by
+  induction snap generalizing cur with
+  | nil => constructor <;> intro r <;> simp [joinLoop] <;> intros <;> simp_all
+  | cons srv rest ih =>
+    unfold joinLoop
+    by_cases hm : srv.id = id ∨ srv.addr = addr
+    · simp only [hm, if_true]
+      by_cases hi : srv.addr = addr ∧ srv.id = id ∧ decide (srv.suf = .voter) = v
+      · simp only [hi, and_self, if_true]
+        constructor
+        · intro r o h; cases h; exact ht
+        · intro r h; cases h
+      · simp only [hi, if_false]
+        cases hn : nextConfiguration cur (.removeServer id) with
+        | none =>
+          constructor
+          · intro r o h; cases h; exact ht
+          · intro r h; cases h
+        | some c' =>
+          have hc' : t ∈ c' := by
+            rw [(next_some _ _ _ hn).1]; exact removeGo_mem_of_ne id cur t ht hne
+          exact ih c' hc'
+    · simp only [hm, if_false]
+      exact ih cur ht
+
+/-- **Frame.** A Join for node `id` — whatever its outcome — leaves the entry (address AND role)
+of every other node untouched. -/
+theorem join_keeps_others (e : Env) (c : Config) (id addr : String) (v : Bool) (t : Server)
+    (ht : t ∈ c) (hne : t.id ≠ id) : t ∈ (storeJoin e c id addr v).1 := by
+  unfold storeJoin
+  split
+  · exact ht
+  split
+  · exact ht
+  split
+  · exact ht
+  split
+  · rename_i r h
+    exact (joinLoop_keeps id addr v c c t ht hne).1 r.1 r.2 h
+  · rename_i cur h
+    have hcur := (joinLoop_keeps id addr v c c t ht hne).2 cur h
+    unfold finishJoin
+    cases hn : nextConfiguration cur (addChange id addr v) with
+    | none => exact hcur
+    | some c' =>
+      rw [(next_some _ _ _ hn).1]
+      cases v
+      · exact addNonvoterGo_keeps id addr cur t hcur hne
+      · exact addVoterGo_keeps id addr cur t hcur hne
+
+theorem remove_keeps_others (e : Env) (c : Config) (id : String) (t : Server)
+    (ht : t ∈ c) (hne : t.id ≠ id) : t ∈ (storeRemove e c id).1 := by
+  unfold storeRemove
+  split
+  · exact ht
+  split
+  · exact ht
+  split
+  · exact ht
+  · rename_i c' hn
+    rw [(next_some _ _ _ hn).1]; exact removeGo_mem_of_ne id c t ht hne
+
+/-- the node id an operation is about -/
+def opTarget : Op → Option String
+  | .join _ id _ _ => some id
+  | .remove _ id => some id
+  | .reap _ id _ _ _ => some id
+  | .bootstrap _ _ _ => none
+
+/-- **The role persists.** Once a node's entry (id, address, role) is in the configuration, it
+stays exactly as it is through ANY later sequence of joins, removals, reaping decisions and
+bootstrap attempts that are about OTHER node ids. -/
+theorem role_persists (c : Config) (ops : List Op) (t : Server) (ht : t ∈ c)
+    (hother : ∀ op ∈ ops, opTarget op ≠ some t.id) : t ∈ runOps c ops := by
+  induction ops generalizing c with
+  | nil => exact ht
+  | cons op ops ih =>
+    have hop := hother op (by simp)
+    have hrest : ∀ op' ∈ ops, opTarget op' ≠ some t.id := fun op' h => hother op' (by simp [h])
+    apply ih _ _ hrest
+    cases op with
+    | join e id addr v =>
+      exact join_keeps_others e c id addr v t ht (fun h => hop (by simp [opTarget, h]))
+    | remove e id =>
+      exact remove_keeps_others e c id t ht (fun h => hop (by simp [opTarget, h]))
+    | reap e id d r ro =>
+      exact reap_touches_only_that_node e c id d r ro t ht (fun h => hop (by simp [opTarget, h]))
+    | bootstrap ex self servers =>
+      simp only [stepOp]
+      have : c.isEmpty = false := by cases c <;> simp_all
+      simp [this]; exact ht
+
+/-- **Notify-driven bootstrap** keeps the configuration empty or well-formed, and a repeated
+notification from the same id changes nothing. -/
+theorem notify_valid (opened hasLeader resolvable existing : Bool) (self : String) (ns : NotifyState)
+    (c : Config) (id addr : String) (hv : Valid c) :
+    Valid (storeNotify opened hasLeader resolvable existing self ns c id addr).2.1 := by
+  unfold storeNotify
+  split
+  · exact hv
+  split
+  · exact hv
+  split
+  · exact hv
+  split
+  · exact hv
+  simp only
+  split
+  · exact hv
+  · split
+    · rename_i c' hb
+      exact Or.inr (check_sound _ (bootstrap_good _ _ _ _ hb))
+    · exact hv
+
+theorem notify_idempotent (hasLeader resolvable existing : Bool) (self : String) (ns : NotifyState)
+    (c : Config) (id addr : String) (hin : ns.notifying.any (fun p => p.1 = id) = true) :
+    storeNotify true hasLeader resolvable existing self ns c id addr = (ns, c, .noop) := by
+  unfold storeNotify
+  simp only [Bool.not_true, Bool.false_eq_true, if_false]
+  split
+  · rfl
+  · simp_all
+
+/-- the raft dependency whose `nextConfiguration` / `checkConfiguration` are transcribed is the
+version this tree builds against (regenerated from go.mod) -/
+theorem raft_version_pinned : RqModel.Gen.ReadPath.raftVersion = "v1.7.3" := by decide
 
 /-! ### non-vacuity -/
 
